@@ -1280,4 +1280,4 @@ def main(ctx):
               # a long TABLE: node j of the tiled table is not periodic, so only the query at the nodes themselves is used:
               # interpolating a table at its own nodes returns the node values
               }
-    tiled_elementwise(ctx, "long-arrays", ispecs, marks(ctx))
+    tiled_elementwise(ctx, "long-arrays", ispecs, marks(ctx), harvest=([__import__("esutil.stat.util", fromlist=["x"])], []))
